@@ -29,6 +29,8 @@ def run(ctx):
     ctx.rule("R07.d", "depends model, path resolution: Parameters._spec_to_obj interpreted for a.x / a.b.x / a.b.c.x / a.b.c.x:bounds / a.b.param with every link of the path in turn holding None: "
                       "the parameters to watch are exactly one per existing holder along the path (so that attaching an object at ANY level is noticed) plus the leaves iff the whole path is attached", floor=1)
     ctx.rule("R07.u", "dispatch model, snapshot: Parameters._call_watcher serves a watcher that was unregistered after the dispatch snapshot was taken -- when the first dependency watcher of an event re-resolves the parent's dependencies, the old watchers of the other methods are the only carriers of that event", floor=1)
+    ctx.rule("R07.p", "registration model (shared with R03.p): Parameters._register_watcher removes exactly the watcher it is given -- for a sub-object attached to two parents, whose dependency "
+                      "watchers differ only in the caller they run, the detaching parent's watcher goes and the other parent's stays", floor=1)
     ctx.rule("R07.k", "depends model, change filter on several events: _skip_event interpreted with two replacement events delivered together whose sub-objects share the relative leaf path "
                       "(left.x / right.x changed or not, dict and list form of `changed`): skipped iff no compared value differs", floor=1)
     ctx.rule("R07.g", "depends model, path helper: _getattrr (which the change filter reads the old and new leaf values with) interpreted on a resolving path with a truthy / FALSY / None leaf "
@@ -78,3 +80,5 @@ def run(ctx):
     depends_model.report_batch_rebind(ctx, "R07.q")
     depends_model.report_getattrr(ctx, "R07.g")
     depends_model.report_skip_event_multi(ctx, "R07.k")
+    from checks import register_model
+    register_model.report(ctx, "R07.p")
